@@ -33,7 +33,7 @@ def text_seq(s):
 
 def to_text(rules):
     lines = [f"{l}: " + " | ".join(text_seq(s) for s in alts) + ";" for l, alts in rules]
-    seps = sorted({sp for l, alts in rules for s in alts for sp in _seps_seq(s)})
+    seps = sorted({sp for l, alts in rules for s in alts for sp in _seps_seq(s) if sp in SEPS})
     if seps:
         lines.append("terminals")
         for sp in seps:
@@ -95,9 +95,11 @@ class Expansion:
             return nm
         _, el, op, sep, greedy = e
         x = self.sym(el)
-        if sep:
+        if sep and sep in SEPS:
             self.terms[SEPS[sep]] = lit(SEPS[sep])
-        sepsym = SEPS[sep] if sep else None
+        # a separator is a declared terminal (SEPS) or a rule of the grammar (dropped from the result by position,
+        # whatever it evaluates to)
+        sepsym = (SEPS[sep] if sep in SEPS else sep) if sep else None
         if op == "?":
             nm, new = self.helper(("opt", x, greedy), ("opt",))
             if new:
